@@ -205,23 +205,29 @@ def r2_self_threading_agrees(ctx):
     # dependent generator: def header and every hand-over carry the self prefix
     dg = A.dependent_generator(repo)
     ctx.touch(dg)
-    slf = dg.params[3] if len(dg.params) > 3 else None
-    bad = []
-    cnt = 0
-    for e in emissions(dg.node):
-        sk = e.skeleton
-        if "HANDLER" in sk.text.split("(")[0] or "FALLTHROUGH(" in sk.text or "return HANDLER" in sk.text:
-            if "(" in sk.text and ("return" in sk.text):
-                cnt += 1
-                if slf not in sk.holes.values():
-                    bad.append(e)
-    header_ok = False
-    for n in ast.walk(dg.node):
-        if isinstance(n, ast.JoinedStr):
-            s = str_value(n) or ""
-            if s.startswith("def ") and f"(§{slf}§" in s:
-                header_ok = True
-    ctx.ob(f"{dg.key}:self-prefix", dg.loc(), f"the dependent dispatcher declares the self prefix and passes it in all {cnt} hand-overs", cnt >= 4 and not bad and header_ok, f"`{short(bad[0].arg, 60)}` does not pass the self prefix" if bad else "the dependent dispatcher's header or calls lost the self prefix")
+
+    def _dep_skel(ctx_):
+        slf = dg.params[3] if len(dg.params) > 3 else None
+        bad = []
+        cnt = 0
+        for e in emissions(dg.node):
+            sk = e.skeleton
+            if "HANDLER" in sk.text.split("(")[0] or "FALLTHROUGH(" in sk.text or "return HANDLER" in sk.text:
+                if "(" in sk.text and ("return" in sk.text):
+                    cnt += 1
+                    if slf not in sk.holes.values():
+                        bad.append(e)
+        header_ok = False
+        for n in ast.walk(dg.node):
+            if isinstance(n, ast.JoinedStr):
+                s = str_value(n) or ""
+                if s.startswith("def ") and f"(§{slf}§" in s:
+                    header_ok = True
+        ctx.ob(f"{dg.key}:self-prefix", dg.loc(), f"the dependent dispatcher declares the self prefix and passes it in all {cnt} hand-overs", cnt >= 4 and not bad and header_ok, f"`{short(bad[0].arg, 60)}` does not pass the self prefix" if bad else "the dependent dispatcher's header or calls lost the self prefix")
+
+    from . import depgen as DG
+
+    DG.with_fallback(ctx, ("signature", "hand-over"), _dep_skel, configs=[c for c, v in DG.CONFIGS.items() if v["slf"]] + ["two-predicates", "keyed-below-threshold"])
     # the wrapper derives the prefix from the handler's first parameter
     multi = A.multimap(repo)
     ws = [m for m in multi.methods.values() if any(isinstance(c, ast.Call) and call_name(c) == dg.name for c in ast.walk(m.node))]
